@@ -1,15 +1,23 @@
 import RodbusModel.Model.Lifecycle
 import RodbusModel.Spec.Lifecycle
+import RodbusModel.Spec.LifecycleObs
 /-
   `life` suite: model output for
   life r<min>.<max> m<maxto> t<timeout> [tls:]<behaviours> <stops>
 
-  behaviours: refuse | close | garbage | silent | serve, and (TLS mode only) hsclose | hsgarbage |
-  hscert — three ways of making the handshake fail after the TCP connect succeeded, all of them
-  the model's `Behaviour.hsfail`.  The `tls:` prefix selects the TLS client in the harness; the
-  model is the same task.
+  behaviours: refuse | close | garbage | silent | serve | serve<k> | serve<k>w, and (TLS mode only)
+  hsclose | hsgarbage | hscert — three ways of making the handshake fail after the TCP connect
+  succeeded, all of them the model's `Behaviour.hsfail`.  `serve<k>`: the peer answers `k`
+  requests and closes right after the `k`-th reply (`Behaviour.serveN k false`); `serve<k>w`: it
+  closes when it receives the `(k+1)`-th request (`serveN k true`).  The `tls:` prefix selects the
+  TLS client in the harness; the model is the same task.
   stops: `,`-joined; a stop is `-` or `+`-joined actions E D S X R L<level>; `<stop>*<n>` stands
-  for `n` copies of the stop, `<behaviour>*<n>` for `n` attempts with that behaviour.
+  for `n` copies of the stop, `<behaviour>*<n>` for `n` attempts with that behaviour.  Stops that
+  are left when the task has ended are performed on the handles of the ended task.
+
+  `ClientLoop::poll` is a `select!`: where the peer's EOF / garbage and a queued command (or the
+  loss of every handle) are ready together, both resolutions are admitted; the outputs of all
+  scheduler coin lists are joined by ` || `.
 -/
 namespace Rodbus.Driver
 open Rodbus.Life
@@ -28,11 +36,21 @@ def evStr : Ev → String
   | .idle => "idle"
   | .act a => actStr a
   | .done id r => s!"done:R{id}:{r}"
+  | .closed => "closed"
+  | .refused a => actStr a ++ ":shutdown"
 
 def parseBehaviour (s : String) : Behaviour :=
   if s = "refuse" then .refuse else if s = "close" then .close else if s = "garbage" then .garbage
   else if s = "silent" then .silent
-  else if s = "hsclose" ∨ s = "hsgarbage" ∨ s = "hscert" then .hsfail else .serve
+  else if s = "hsclose" ∨ s = "hsgarbage" ∨ s = "hscert" then .hsfail
+  else if s.startsWith "serve" ∧ s.length > 5 then
+    let rest := s.toList.drop 5
+    let w := rest.getLast? = some 'w'
+    let digits := if w then rest.dropLast else rest
+    match (String.ofList digits).toNat? with
+    | some k => .serveN k w
+    | none => .serve
+  else .serve
 
 /-- `<stop>*<n>` / `<behaviour>*<n>`: `n` copies of the stop / `n` attempts with the behaviour -/
 def expandStops (stops : List String) : List String :=
@@ -60,6 +78,30 @@ def parseStops (stops : List String) : List (List Action) :=
       acts :: go n' alive' rest
   go 0 true stops
 
+/-- specification side of one output: the log alone is a legal state path, every announced
+    connection is closed before the next announcement, the announced delays follow the doubling
+    discipline, and nothing but `shutdown` happens after `Shutdown` -/
+def lifeVerdict (rmin rmax : Nat) (log : List Ev) : String :=
+  (if Spec.Life.legalLog log then "" else "ILLEGAL-PATH ") ++
+  (if Spec.LifeObs.connOk log then "" else "CONNECTION-NOT-CLOSED ") ++
+  (if Spec.LifeObs.conforms rmin rmax 0 (Spec.Life.states log) then "" else "BAD-DELAY ") ++
+  (if Spec.LifeObs.afterShutdownOk log then "" else "ACTIVE-AFTER-SHUTDOWN ")
+
+/-- all outputs admitted for a case: depth-first over the scheduler coins the run asks for -/
+def lifeOutputs (run : List Bool → S) (rmin rmax : Nat) : Nat → List Bool → List (String × String)
+  | 0, cs => one (run cs)
+  | fuel + 1, cs =>
+    let s := run cs
+    if s.starved = 0 then one s
+    else lifeOutputs run rmin rmax fuel (cs ++ [true]) ++ lifeOutputs run rmin rmax fuel (cs ++ [false])
+where
+  one (s : S) : List (String × String) :=
+    let log := s.log.map evStr
+    let after := if s.handles then "shutdown" else "-"
+    let out := (if log.isEmpty then "-" else ";".intercalate log) ++
+      s!" | shutdown_seen=true fin=term after={after} acc=ok"
+    [(out, lifeVerdict rmin rmax s.log ++ out)]
+
 def runLife (tok : List String) : String × String :=
   match tok with
   | [_, r, m, _t, bs, stops] =>
@@ -70,16 +112,13 @@ def runLife (tok : List String) : String × String :=
     let bs := if bs.startsWith "tls:" then String.ofList (bs.toList.drop 4) else bs
     let behaviours := (expandStops (bs.splitOn "/")).map parseBehaviour
     let script := if stops = "-" then [] else parseStops (expandStops (stops.splitOn ","))
-    let s0 : S := { retry := Retry.create rmin rmax, behaviours := behaviours, maxto := maxto }
-    let (s1, p1) := start s0
-    let (s2, _) := runStops s1 p1 (script ++ [[], []])
-    let log := s2.log.map evStr
-    let after := if s2.handles then "shutdown" else "-"
-    let out := (if log.isEmpty then "-" else ";".intercalate log) ++
-      s!" | shutdown_seen=true fin=term after={after} acc=ok"
-    -- specification side: the same observable log, but only if it is a legal state path
-    let spec := if Spec.Life.legalLog s2.log then out else "ILLEGAL-PATH " ++ out
-    (out, spec)
+    let run (cs : List Bool) : S :=
+      let s0 : S := { retry := Retry.create rmin rmax, behaviours := behaviours, maxto := maxto,
+                      coins := cs }
+      let (s1, p1) := start s0
+      (runStops s1 p1 (script ++ [[], []])).1
+    let outs := (lifeOutputs run rmin rmax 10 []).eraseDups
+    (" || ".intercalate (outs.map (·.1)), " || ".intercalate (outs.map (·.2)))
   | _ => ("bad-case", "bad-case")
 
 /-- `slife r<min us>.<max us> <n>`: the serial channel task's announced wait delays when every
